@@ -132,6 +132,23 @@ def _respell_dashes(v, value):
     v.uid = new if new != want else want.replace("-", "--")
 
 
+def _checksums_emptied_in_place(img, value):
+    # the container the object holds is edited IN PLACE: no attribute of the image is assigned
+    if value == "clear":
+        img.checksums.clear()
+    else:
+        for k in list(img.checksums):
+            del img.checksums[k]
+
+
+def _extra_variants_appended_in_place(img, value):
+    img.additional_variants.extend(value)
+
+
+def _foreign_arch_in_place(v, value):
+    v.arches.add(value)
+
+
 def _unified_extra(img, value):
     img.unified = False
     img.additional_variants = value
@@ -220,6 +237,8 @@ SLOTS += [
     attr_slot("composeinfo", "variant.arches-empty", _ci_variants, "arches", [set()], backs=["composeinfo.Variant._validate_arches"]),
     Slot("composeinfo", "variant.deep-child-arch-of-top-not-parent", _ci_deep_with_narrower_parent, ["(an arch the top-level has, the parent lacks)"],
          apply=_arch_of_top_not_parent, backs=["composeinfo.Variant._validate_parent_arch"]),
+    Slot("composeinfo", "variant.child-arch-added-in-place-outside-parent", _ci_children, ["sparc", "mips", "sparc64v"], apply=_foreign_arch_in_place,
+         backs=["composeinfo.Variant._validate_parent_arch"]),
     Slot("composeinfo", "variant.child-arch-outside-parent", _ci_children, ["sparc", "mips", "sparc64v"], apply=_foreign_arch,
          backs=["composeinfo.Variant._validate_parent_arch"]),
     Slot("composeinfo", "variant.child-uid-differs-in-dashes-only", _ci_children, ["none", "doubled", "leading", "trailing", "moved"],
@@ -252,6 +271,10 @@ SLOTS += [
     attr_slot("images", "image.unified", _images, "unified", BAD_BOOL, backs=["images.Image._validate_unified"]),
     Slot("images", "image.additional-variants-on-non-unified", _images, [["Server"], ["A", "B"]], apply=_unified_extra,
          backs=["images.Image._validate_merges_variants"]),
+    Slot("images", "image.checksums-emptied-in-place", _images, ["clear", "del"], apply=_checksums_emptied_in_place,
+         backs=["images.Image._validate_checksums"]),
+    Slot("images", "image.additional-variants-appended-in-place-on-non-unified", lambda im: [i for i in _images(im) if not i.unified],
+         [["Server"], ["A", "B"]], apply=_extra_variants_appended_in_place, backs=["images.Image._validate_merges_variants"]),
     attr_slot("images", "image.additional_variants-not-a-list", _images, "additional_variants", ["Server", None, 5]),
 ]
 
